@@ -657,3 +657,129 @@ def rule_fwdhelpers(ctx, prop: str) -> RuleResult:
         res.add(Finding("FWDHELPERS", S, cp.lineno, "_compose", "f(g(x))", "_compose(f, g) must be x -> f(g(x))"))
     res.floor = 5
     return res
+
+
+IC = "src/exo/core/internal_cursors.py"
+
+
+def _idx_components(e: ast.AST):
+    """Yield (base_text, node) for expressions of the form  <base>[1]  (index component
+    of a path element) — <base> is e.g. `cur_path[block_n]`, `bs`."""
+    for n in ast.walk(e):
+        if isinstance(n, ast.Subscript) and isinstance(n.slice, ast.Constant) and n.slice.value == 1:
+            yield ast.unparse(n.value), n
+
+
+def _attr_checked(base: str, node: ast.AST, func_node: ast.AST) -> bool:
+    """Is there an equality test on `<base>[0]` that governs `node`?  (same `and`
+    chain, an enclosing if/while test, or an earlier early-exit `if <base>[0] != ..`)"""
+    want = f"{base}[0]"
+
+    def has_eq(t: ast.AST) -> bool:
+        for c in ast.walk(t):
+            if isinstance(c, ast.Compare) and len(c.ops) == 1 and isinstance(c.ops[0], (ast.Eq, ast.NotEq)):
+                if want in (ast.unparse(c.left), ast.unparse(c.comparators[0])):
+                    return True
+        return False
+
+    p = node
+    while p is not None and p is not func_node:
+        par = parent(p)
+        if isinstance(par, ast.BoolOp) and isinstance(par.op, ast.And) and has_eq(par):
+            return True
+        if isinstance(par, (ast.If, ast.While)) and has_eq(par.test) and p is not par.test:
+            return True
+        if isinstance(par, ast.If) and p is par.test and has_eq(par.test):
+            return True
+        # earlier sibling early exit
+        for fld in ("body", "orelse"):
+            blk = getattr(par, fld, None)
+            if isinstance(blk, list) and p in blk:
+                for s in blk[: blk.index(p)]:
+                    if isinstance(s, ast.If) and has_eq(s.test) and any(isinstance(x, (ast.Return, ast.Continue, ast.Break, ast.Raise)) for x in s.body):
+                        return True
+        p = par
+    return False
+
+
+def rule_pathidx(ctx, prop: str) -> RuleResult:
+    """Positions inside the elementary forwarders: two child indices may only be
+    ordered against each other when they are indices into the *same* child block, i.e.
+    the attribute components of the two path elements were compared for equality.
+    (body[2] and orelse[2] are unrelated.)  This is the one structural necessary
+    condition of the forwarders' index arithmetic; the arithmetic itself is not decided."""
+    ix = ctx.ix
+    res = RuleResult("PATHIDX")
+    m = ix.module(IC)
+    n_sites = 0
+    for f in m.funcs.values():
+        if not isinstance(f.node, ast.FunctionDef):
+            continue
+        # tuple-unpacked path elements:  a, i = path[k]   /  for (a, i), (b, j) in zip(p, q)
+        pairs: Dict[str, str] = {}  # index var -> attr var
+        for n in f.body_nodes():
+            tgts = []
+            if isinstance(n, ast.Assign) and isinstance(n.targets[0], ast.Tuple):
+                tgts = [n.targets[0]]
+            if isinstance(n, ast.For):
+                tgts = [t for t in ast.walk(n.target) if isinstance(t, ast.Tuple)]
+            for t in tgts:
+                if len(t.elts) == 2 and all(isinstance(e, ast.Name) for e in t.elts) and "attr" in t.elts[0].id:
+                    pairs[t.elts[1].id] = t.elts[0].id
+        for n in f.body_nodes():
+            if not (isinstance(n, ast.Compare) and len(n.ops) == 1 and isinstance(n.ops[0], (ast.Lt, ast.LtE, ast.Gt, ast.GtE))):
+                continue
+            sides = [n.left, n.comparators[0]]
+            comps = [c for s in sides for c in _idx_components(s)]
+            names = [s.id for s in sides if isinstance(s, ast.Name) and s.id in pairs]
+            if len(comps) >= 1 and any(True for _ in comps):
+                # at least one side is an index component of a path element
+                for base, node in comps:
+                    if base.endswith("_rng") or ".range" in base or "_range" in base:
+                        continue
+                    n_sites += 1
+                    res.instances += 1
+                    res.nontrivial += 1
+                    res.analysed.append(f"{IC}:{f.qualname}")
+                    ok = _attr_checked(base, n, f.node)
+                    res.ob(ok)
+                    res.sample(f"{f.qualname}: `{ast.unparse(n)}` — attribute of `{base}` compared for equality: {ok}")
+                    if not ok:
+                        res.add(
+                            Finding("PATHIDX", IC, n.lineno, f.qualname, f"{base}[1]",
+                                    f"`{ast.unparse(n)}` orders the child index `{base}[1]` without any governing test that `{base}[0]` (which child block: body / orelse / idx ...) is the same: "
+                                    f"cursors in a sibling block (e.g. the else branch) are shifted as if they were in the edited block and forward to a different statement")
+                        )
+            elif len(names) == 2:
+                n_sites += 1
+                res.instances += 1
+                res.nontrivial += 1
+                a1, a2 = pairs[names[0]], pairs[names[1]]
+                ok = False
+                for k in f.body_nodes():
+                    if isinstance(k, (ast.If, ast.Assert)) and k.lineno < n.lineno and isinstance(k.test, ast.Compare) and isinstance(k.test.ops[0], (ast.NotEq, ast.Eq)):
+                        if {ast.unparse(k.test.left), ast.unparse(k.test.comparators[0])} == {a1, a2}:
+                            ok = True
+                res.ob(ok)
+                res.sample(f"{f.qualname}: `{ast.unparse(n)}` governed by a test of `{a1}` vs `{a2}`: {ok}")
+                if not ok:
+                    res.add(Finding("PATHIDX", IC, n.lineno, f.qualname, f"{names[0]}<>{names[1]}", f"`{ast.unparse(n)}` orders indices of two path elements whose attributes `{a1}`/`{a2}` were not compared"))
+    # _local_forward: the sibling index is only remapped after attr equality
+    lf = m.func("Cursor._local_forward.forward")
+    res.instances += 1
+    res.nontrivial += 1
+    ok = False
+    for n in lf.body_nodes():
+        if isinstance(n, ast.If) and isinstance(n.test, ast.UnaryOp) and isinstance(n.test.op, ast.Not):
+            t = n.test.operand
+            if isinstance(t, ast.BoolOp) and isinstance(t.op, ast.And):
+                txt = [ast.unparse(v) for v in t.values]
+                if any(v.startswith("_starts_with(") for v in txt) and any("attr" in v and "==" in v for v in txt) and any(isinstance(x, ast.Return) for x in n.body):
+                    ok = True
+    res.ob(ok)
+    if not ok:
+        res.add(Finding("PATHIDX", IC, lf.lineno, lf.qualname, "prefix+attr", "_local_forward must leave alone every cursor that is not below the edited block: path prefix AND block attribute must both match"))
+    if n_sites < 4:
+        raise AnalysisError(f"PATHIDX: expected >= 4 index-ordering sites in internal_cursors.py, found {n_sites}")
+    res.floor = 5
+    return res
